@@ -268,10 +268,19 @@ def _c18_real_world(vio, rng, tier):
                     try:
                         if helper == "many_to_one":
                             mutil.connect_many_to_one(w, srcs, dsts[0], *shape)
+                        elif helper == "evenly":
+                            mutil.connect_randomly(w, srcs, dsts, *shape)          # evenly is the documented default
                         else:
-                            mutil.connect_randomly(w, srcs, dsts, *shape, evenly=(helper == "evenly"))
+                            mutil.connect_randomly(w, srcs, dsts, *shape, evenly=False)
                     finally:
                         mutil.random = saved
+                if any(sim.successors_to_wait_for for sim in w.sims.values()):
+                    vio.append({"law": "the helpers register async_requests only when asked to", **case})
+                if helper == "evenly":
+                    cnt = Counter(nb for e in srcs for nb in w.entity_graph[e.full_id])
+                    allc = [cnt.get(d.full_id, 0) for d in dsts]
+                    if max(allc) - min(allc) > 1:
+                        vio.append({"law": "connect_randomly distributes evenly by default", "counts": allc, **case})
                 flows = set()
                 for sim in w.sims.values():
                     for (src_sim, _delay), pairs in sim.pulled_inputs.items():
